@@ -168,6 +168,13 @@ Definition restore_val (snap : string -> N) (a : option restore_act) (v : fval) 
 Definition restore (s0 s : cstate) : cstate :=
   fun f => restore_val (snap_val s0) (act_for f) (s f).
 
+(* the state in which c_rule returns through an error exit of the fallible
+   region: restore_snapshot runs only if the source calls it on that path *)
+Definition exit_state (restored : bool) (s0 : cstate) (ws : list work) : cstate :=
+  if restored then restore s0 (apply_all ws s0) else apply_all ws s0.
+
+Definition exits_restore : bool := forallb snd fallible_exits.
+
 (* ---- the decidable condition on the generated tables --------------------- *)
 Definition src_is_len (nm : string) (f : field) : bool :=
   match snap_lookup nm with Some (LenOf g) => field_eqb g f | _ => false end.
